@@ -214,6 +214,12 @@ def like_template_init(rep, idx, c, prev):
                     isinstance(n.targets[0].slice, ast.Constant) and n.targets[0].slice.value == member and isinstance(n.value, ast.Call):
                 decls.append(n.value)
     if not decls:
+        # members produced from a table: no call anywhere in the signature class passes an initial value
+        kws = [k for n in ast.walk(sig.node) if isinstance(n, ast.Call) for k in n.keywords if k.arg in ("init", "reset") or k.arg is None]
+        if member in idx.members(sig) and not kws:
+            rep.ok("C13.1", sig.site, "i_r starts low (the signal it is modelled on has no initial value)",
+                   f"member `{member}` comes from a table; no call in Source.Signature passes init= / reset=")
+            return
         rep.unk("C13.1", site, "i_r starts low (the signal it is modelled on has no initial value)",
                 f"declaration of member `{member}` of Source.Signature not found")
         return
